@@ -435,7 +435,7 @@ def run(ctx):
     chains = []
     if rows and ctx.harness_build("c01"):
         ok, _ = ctx.harness_run("c01", ["-out", "chains.jsonl", "-seed", ctx.seed + 11, "-nports", 0, "-nnested", 0,
-                                        "-nchain", 90 if quick else 3000, "-forcefilter"], timeout=3000)
+                                        "-nchain", 60 if quick else 3000, "-forcefilter"], timeout=3000)
         if ok:
             chains = ctx.read_jsonl(os.path.join(ctx.work, "chains.jsonl"))
     for o in chains:
